@@ -56,6 +56,11 @@ static size_t real(arg_t a)
 		return SIZE_MAX - (size_t)a.n;
 	if (a.big == 2)
 		return ((size_t)1 << 50) + (size_t)a.n;
+	/* around SIZE_MAX / sizeof(void *): where a slot count times the slot size wraps */
+	if (a.big == 3)
+		return SIZE_MAX / sizeof(void *) - (size_t)a.n;
+	if (a.big == 4)
+		return SIZE_MAX / sizeof(void *) + 1 + (size_t)a.n;
 	return (size_t)a.n;
 }
 static void ev_arg(const char *k, arg_t a)
@@ -242,11 +247,12 @@ static void do_del(arg_t idx, arg_t count)
 	                       : json_object_array_del_idx(arr, real(idx), real(count)));
 	observe("del", idx, count, 0, ret, 0, 0, 0);
 }
-static void do_shrink(int k)
+static void do_shrink(arg_t c)
 {
-	arg_t c = {0, k};
-	int ret;
-	ARMED(ret = level == 0 ? array_list_shrink(al, (size_t)k) : VIA_LIST ? array_list_shrink(LST, (size_t)k) : json_object_array_shrink(arr, k));
+	int ret, via = VIA_LIST;
+	if (c.big && level != 0 && !via)
+		c.big = 0, c.n = 1; /* (json_object_array_shrink takes an int) */
+	ARMED(ret = level == 0 ? array_list_shrink(al, real(c)) : via ? array_list_shrink(LST, real(c)) : json_object_array_shrink(arr, c.n));
 	observe("shrink", Z, c, 0, ret, 0, 0, 0);
 }
 static void do_get(arg_t idx)
@@ -342,7 +348,12 @@ static void run_script(char *line, int lvl, long fault_last)
 			do_del(a, b);
 			break;
 		}
-		case 's': do_shrink((int)strtol(p, &p, 10)); break;
+		case 's':
+		{
+			arg_t c = {0, (int)strtol(p, &p, 10)};
+			do_shrink(c);
+			break;
+		}
 		case 'g': do_get(parse_arg(&p)); break;
 		case 'o': do_sort(); break;
 		case 'b': do_bsearch((int)strtol(p, &p, 10)); break;
@@ -408,7 +419,7 @@ static arg_t pick_idx(void)
 	case 4: a.n = (int)len + 2 + (int)vh_below(30); break;
 	case 5: a.big = 1; a.n = (int)vh_below(3); break;            /* SIZE_MAX, SIZE_MAX-1, -2 */
 	case 6: a.big = 1; a.n = (int)len + (int)vh_below(3); break; /* idx + count wraps around */
-	case 7: a.big = 2; a.n = (int)vh_below(100); break;
+	case 7: a.big = 2 + (int)vh_below(3); a.n = vh_below(2) ? (int)vh_below(100) : (int)len + (int)vh_below(3); break;
 	default: a.n = len ? (int)vh_below((uint32_t)len) : 0; break;
 	}
 	return a;
@@ -458,7 +469,20 @@ static int drive(int start, int nexec, int nops)
 				do_del(a, c);
 				break;
 			}
-			case 10: do_shrink((int)vh_below(4)); break;
+			case 10:
+			{
+				/* spare slots: a few, or a count near one of the places where the size computation wraps */
+				arg_t c = {0, (int)vh_below(4)};
+				if (vh_below(3) == 0)
+				{
+					c.big = 1 + (int)vh_below(4);
+					c.n = vh_below(2) ? (int)vh_below(3) : (int)len + (int)vh_below(3) - 1;
+					if (c.n < 0)
+						c.n = 0;
+				}
+				do_shrink(c);
+				break;
+			}
 			case 11: do_get(pick_idx()); break;
 			case 12: case 13:
 				do_sort();
